@@ -286,6 +286,9 @@ def random_sequence(rng, pair, nops):
         if rng.random() < 0.06:
             doall_step(rng, pair)
             continue
+        if rng.random() < 0.08:
+            rich_instance_step(rng, pair, step)
+            continue
         if r < 0.10:
             cn = rng.choice(["VA", "va", "VN3", "VX", "VNoSuch", "VAssoc"])
             kw = dict(DeepInheritance=opt(rng.random() < 0.5),
@@ -504,6 +507,72 @@ def doall_step(rng, pair):
     srcns = obj.namespace or ""
     pair.call("InvokeMethod", ("DoAll", obj, plist), kw, srcns, wp,
               label="InvokeMethod(DoAll, %s, Params=%r, %r)" % (obj, plist, kw))
+
+
+def _plist(rng, names):
+    """PropertyList in every container shape a caller may use"""
+    pl = rng.choice([None, [], (), names, tuple(names), names[:1],
+                     tuple(names[:1]), [n.upper() for n in names]])
+    return pl
+
+
+def rich_instance_step(rng, pair, step):
+    """Instances with properties of every type, arrays with NULL entries in
+    every multiplicity and position, empty arrays, NULL values; created,
+    modified and read back, with PropertyList as list / tuple / empty"""
+    cls = rng.choice(["VA", "VB", "VC"])
+    k = rng.randint(50, 56)
+    ns = rng.choice([None, NS1, NS2])
+    arr = rng.choice([None, [], [Uint8(1)], [None], [None, None],
+                      [Uint8(1), None, Uint8(3), None],
+                      [None, Uint8(2), None], [Uint8(0), Uint8(255)]])
+    props = [CIMProperty("k", Uint32(k)),
+             CIMProperty("s", rng.choice(["", "x<&>\"'", MULTI_TEXT, None]),
+                         type="string"),
+             CIMProperty("u8a", arr, type="uint8", is_array=True),
+             CIMProperty("d", rng.choice([
+                 None, CIMDateTime("20200101120000.000000+060"),
+                 CIMDateTime("00000003010203.000004:000")]),
+                 type="datetime"),
+             CIMProperty("b", rng.choice([None, True, False]),
+                         type="boolean"),
+             CIMProperty("i64", rng.choice([None, Sint64(-2 ** 63),
+                                            Sint64(2 ** 63 - 1)]),
+                         type="sint64"),
+             CIMProperty("r", rng.choice([None, Real64(1.5), Real64(-1e300),
+                                          Real64(0.1)]), type="real64")]
+    if cls in ("VB", "VC"):
+        props.append(CIMProperty("sb", rng.choice([None, "b"]),
+                                 type="string"))
+    rng.shuffle(props)
+    props = props[:rng.randint(1, len(props))]
+    if not any(p.name == "k" for p in props):
+        props.append(CIMProperty("k", Uint32(k)))
+    inst = CIMInstance(cls, properties=props)
+    kw = {"namespace": ns} if ns else {}
+    pair.call("CreateInstance", (inst,), kw, ns or "", dict(NewInstance=inst))
+    path = CIMInstanceName(cls, keybindings={"k": Uint32(k)}, namespace=ns)
+    mprops = [p for p in props if p.name != "k"]
+    rng.shuffle(mprops)
+    minst = CIMInstance(cls, properties=mprops[:rng.randint(0, len(mprops))],
+                        path=path)
+    pl = _plist(rng, ["u8a", "s"])
+    kw = dict(PropertyList=pl)
+    pair.call("ModifyInstance", (minst,), kw, ns or "",
+              dict(kw, ModifiedInstance=minst))
+    pl = _plist(rng, ["u8a", "d", "K"])
+    kw = dict(PropertyList=pl, IncludeClassOrigin=rng.choice([None, True]))
+    pair.call("GetInstance", (path,), kw, ns or "",
+              dict(kw, InstanceName=path))
+    pl = _plist(rng, ["s", "u8a"])
+    kw = dict(PropertyList=pl, DeepInheritance=rng.choice([None, True]))
+    wp = dict(kw, ClassName=cls)
+    if ns:
+        kw["namespace"] = ns
+    pair.call("EnumerateInstances", (cls,), kw, ns or "", wp)
+
+
+MULTI_TEXT = "Gr\u00fc\u00dfe \u20ac \u65e5\u672c \U0001F600"
 
 
 def reuse_step(rng, pair, pool):
